@@ -456,6 +456,9 @@ def r4_notification(ctx):
     ok = len(cond_reads) == 1 and cond_reads[0][0] == "usize" and "is_some" in cond_reads[0][1][0][0] and cond_reads[0][1][0][1] == ["True"]
     ctx.check(ok, "buffer_mutate_message/count-read-iff-ring", site_of(bm),
               "the per-tick message count is not read exactly when the ring exists: %s" % reads, str(reads))
+    if not F.find("Mutations::send"):
+        ctx.note("server side not compiled in this configuration: count-written-iff-flag not applicable")
+        return
     ms = ctx.fn("Mutations::send")
     tr = tracer(ms)
     # the count write (`write ... messages_count`) must be guarded by the track flag parameter
@@ -475,6 +478,6 @@ RULES = [
     ("C12.R1", "every shift amount in the confirmation windows is < the bit width", r1_shift_bounds, 6, None),
     ("C12.R2", "the mutate-tick ring keeps exactly 64 slots", r2_ring_length, 4, None),
     ("C12.R3", "ticks are ordered only through the wrapping comparison", r3_wrapping_order, 8, None),
-    ("C12.R4", "the fully-received notification is wired to the ring's own verdict", r4_notification, 10, None),
+    ("C12.R4", "the fully-received notification is wired to the ring's own verdict", r4_notification, 10, ["default", "all-features", "client-only"]),
 ]
 THOROUGH_CONFIGS = ["default", "all-features", "client-only"]
